@@ -176,6 +176,7 @@ type BrokerFault struct {
 type BrokerPlan struct {
 	ConnackRC     byte           `json:"connack_rc,omitempty"`
 	ConnackRCs    []byte         `json:"connack_rcs,omitempty"` // per CONNECT (in order), overrides ConnackRC
+	RefuseCIDs    []string       `json:"refuse_cids,omitempty"` // CONNECTs with these client ids get CONNACK rc=2 (identifier rejected), whatever the above say
 	SubackCodes   []byte         `json:"suback_codes,omitempty"` // cyclic script; empty = grant requested
 	MaxQoS        uint8          `json:"max_qos,omitempty"`      // used when SubackCodes empty (0 => 2)
 	Silent        bool           `json:"silent,omitempty"`       // never answers anything
@@ -235,6 +236,8 @@ type TXPlan struct {
 	// Pauses: [from, to) windows of virtual time in which RetryTransaction.Paused reports true (the
 	// peer cannot answer: delays that expire meanwhile are neither retried nor counted)
 	Pauses [][2]int64 `json:"pauses,omitempty"`
+	// CbSleepNs: the retry callback takes this long (a slow or blocked write)
+	CbSleepNs int64 `json:"cb_sleep_ns,omitempty"`
 }
 
 type TXOp struct {
